@@ -85,12 +85,24 @@ func ComparisonConstants(f *Func) []int64 {
 	return out
 }
 
-// FindCrashes searches for crashing inputs of f.
-func FindCrashes(p *Prog, f *Func, budget int) (map[ast.Node]*Witness, WitnessStats) {
+// FindCrashes searches for crashing inputs of f.  When want is given the
+// search stops as soon as each of those expressions has a witness.
+func FindCrashes(p *Prog, f *Func, budget int, want []ast.Node) (map[ast.Node]*Witness, WitnessStats) {
 	found := map[ast.Node]*Witness{}
+	allFound := func() bool {
+		if len(want) == 0 {
+			return false
+		}
+		for _, n := range want {
+			if found[n] == nil {
+				return false
+			}
+		}
+		return true
+	}
 	var stats WitnessStats
 	if budget == 0 {
-		budget = 3000000
+		budget = 4000000
 	}
 	type inputKind struct {
 		t    types.Type
@@ -116,16 +128,16 @@ func FindCrashes(p *Prog, f *Func, budget int) (map[ast.Node]*Witness, WitnessSt
 	}
 	var sums func(cf *Func) *Summary
 	sums = func(cf *Func) *Summary {
-		if s, ok := summaryCache[cf]; ok {
+		if s, ok := summaryGet(cf); ok {
 			return s
 		}
-		summaryCache[cf] = nil
+		summaryPut(cf, nil)
 		s := NilReturnSummary(p, cf, sums)
-		summaryCache[cf] = s
+		summaryPut(cf, s)
 		return s
 	}
 	run := func(enum, scalar, ln int64, lenKnown bool) *IResult {
-		ip := &Interp{P: p, F: f, Sums: sums, MaxSteps: 300000}
+		ip := &Interp{P: p, F: f, Sums: sums, MaxSteps: 50000}
 		ip.Input = func(key string, t types.Type) (IVal, bool) {
 			classify(key, t)
 			switch inputs[key].kind {
@@ -222,6 +234,9 @@ func FindCrashes(p *Prog, f *Func, budget int) (map[ast.Node]*Witness, WitnessSt
 				stats.Exhausted = true
 				return found, stats
 			}
+			if allFound() {
+				return found, stats
+			}
 			a := run(en, sc, 0, false)
 			lens := map[int64]bool{}
 			for n := int64(0); n <= 9; n++ {
@@ -250,6 +265,9 @@ func FindCrashes(p *Prog, f *Func, budget int) (map[ast.Node]*Witness, WitnessSt
 					}
 					if stats.Steps > budget {
 						stats.Exhausted = true
+						return found, stats
+					}
+					if allFound() {
 						return found, stats
 					}
 				}
